@@ -352,6 +352,12 @@ O(id='INTEGER_decode_oer.b12', props=['C04', 'C05', 'C14'], kind='bounded', entr
   unwind=14, cbmc=['--malloc-may-fail', '--malloc-fail-null', '--memory-leak-check'],
   bound='every input of at most 12 octets, width 0..8, both signs, fresh or re-used structure; every allocation may fail', min_props=50, timeout=900, **IO)
 
+TE2 = 'bounded stand-in: [sign] + {MAX/10-1, MAX/10, MAX/10+1} + at most 2 arbitrary characters (27 concrete prefixes x 2 symbolic characters): the neighbourhood of the overflow boundary'
+O(id='asn_strtoumax_lim.edge2', props=['C16'], kind='bounded', entry='h_strto_edge', functions=['asn_strtoumax_lim'], defines=['VF_EDGE_UNSIGNED', 'VF_MAXTXT=26'],
+  unwind=30, bound=TE2, min_props=30, timeout=900, **INT_SAT)
+O(id='asn_strtoimax_lim.edge2', props=['C16'], kind='bounded', entry='h_strto_edge', functions=['asn_strtoimax_lim'], defines=['VF_MAXTXT=26'],
+  unwind=30, bound=TE2, min_props=30, timeout=900, **INT_SAT)
+
 UNVERIFIED = {
  'C07': ['asn_encode_to_buffer / asn_encode_to_new_buffer / uper_encode_to_buffer / uper_encode_to_new_buffer with a UPER type encoder: obligations exist (tier experimental) but do not discharge (symbolic-length memcpy of the 32-octet bit scratch space runs out of memory); asn_encode with UPER is covered',
          'every constructed / generated type encoder is assumed to follow the operation-slot convention enumerated by the stub encoder',
